@@ -73,6 +73,16 @@ VF_HARNESS(reinterpret_in_place) {   // reinterpret_array_cast<U>(): each elemen
   vf_assert(same_sizes(r, s) && r.layout() == v.layout(), "reinterpret_array_cast<U>() keeps extents and layout (same element size)");
   L i[D]; arbitrary_index(s, i); L c = spec_addr(s, i);
   vf_assert(reinterpret_cast<char const*>(&elem_brackets(r, i)) == reinterpret_cast<char const*>(&g_e[c]) && elem_brackets(r, i).y == 200 + c, "each element is reinterpreted in place");
+  { auto const& cv2 = v;   // the const overloads are separate code (the 1-D one builds its layout by hand)
+    auto cr = cv2.reinterpret_array_cast<F>();
+    vf_assert(same_sizes(cr, s) && cr.layout() == v.layout() && cr.num_elements() == spec_num_elements(s), "const reinterpret_array_cast<U>() keeps extents and layout");
+    vf_assert(reinterpret_cast<char const*>(&elem_brackets(cr, i)) == reinterpret_cast<char const*>(&g_e[c]), "const reinterpret_array_cast<U>() reinterprets each element in place");
+    auto crl = cv2.reinterpret_array_cast<int>();   // smaller target type: sizeof(E)/sizeof(int) = 2, strides scale by 2
+    Spec<D> ms = s;
+#pragma unroll
+    for(int k = 0; k < D; ++k) ms.d[k].stride = s.d[k].stride * 2;
+    vf_assert(same_sizes(crl, s) && crl.layout() == Lay<D>::make(ms.d), "reinterpret_array_cast to a smaller type keeps the extents and scales the strides");
+    vf_assert(reinterpret_cast<char const*>(&elem_brackets(crl, i)) == reinterpret_cast<char const*>(&g_e[c]), "and designates the first bytes of each element"); }
   auto rl = v.reinterpret_array_cast<long>();
   vf_assert(reinterpret_cast<char const*>(&elem_brackets(rl, i)) == reinterpret_cast<char const*>(&g_e[c]), "reinterpretation as a scalar of the same size designates the same bytes");
   auto const& cv = v;
@@ -89,6 +99,11 @@ template<class V, std::size_t... I> static auto& at_plus(V&& v, L const* i, L j,
 VF_HARNESS(reinterpret_trailing_dimension) {   // reinterpret_array_cast<U>(n): a trailing dimension of size n over each element's bytes
   Spec<D> s = src_spec(1);
   auto v = view_of<D, E>(s, g_e);
+  { auto const& cv2 = v; auto cr2 = cv2.reinterpret_array_cast<int>(2); L szc[D + 1]; tuple_to_array_(cr2.sizes(), szc, std::make_index_sequence<D + 1>{});
+    bool okc = szc[D] == 2;
+#pragma unroll
+    for(int k = 0; k < D; ++k) okc = okc && szc[k] == s.d[k].size;
+    vf_assert(okc, "const reinterpret_array_cast<U>(n) keeps the extents and adds a trailing dimension of size n"); }
   auto r = v.reinterpret_array_cast<int>(2);
   { L sz[D + 1]; tuple_to_array_(r.sizes(), sz, std::make_index_sequence<D + 1>{});
     bool ok = sz[D] == 2;
